@@ -1163,6 +1163,14 @@ func (e *Enc) binop(op token.Token, x, y *Val, T types.Type, pos token.Pos, ins 
 					e.oblige("safe.div", "", "(not (= "+b+" 0))", pos, "division by zero")
 				}
 			}
+			if _, isConst := constOf(y); !isConst && e.ctr != nil && strings.Contains(e.ctr.Opts["abstract"], "div") {
+				// quotient by a variable divisor as an uninterpreted function with range
+				// facts (sound over-approximation; keeps the query linear)
+				r := "(udiv " + a + " " + b + ")"
+				e.assumeHere("(=> (and (>= " + a + " 0) (> " + b + " 0)) (and (<= 0 " + r + ") (<= " + r + " " + a + ")))")
+				e.assumeHere(intRangeFormula(r, T))
+				return mk(r)
+			}
 			if isUnsigned(T) {
 				return mk("(gdiv " + a + " " + b + ")")
 			}
